@@ -109,6 +109,8 @@ def finish(prop, tier, seed, results, wall, write_evidence=True, verbose=False, 
             solver_time += ob.get("time_s", 0)
             for b, n in ob.get("backends", {}).items():
                 by_backend[b] = by_backend.get(b, 0) + n
+            if verbose and ob.get("time_s", 0) > 1.0:
+                print(f"    SLOW {ob['time_s']:.1f}s {ob['name']} {ob.get('backends')}")
             if ob["status"] == "proved":
                 n_proved += 1
                 if len(samples) < 6:
